@@ -87,7 +87,10 @@ impl Sel {
 }
 
 pub fn reach_states(depth: u32, max_states: usize) -> (Vec<(Pos, u32)>, bool) {
-    let seeds = uni::seeds();
+    reach_states_from(&uni::seeds(), depth, max_states)
+}
+
+pub fn reach_states_from(seeds: &[Pos], depth: u32, max_states: usize) -> (Vec<(Pos, u32)>, bool) {
     let parts: Vec<(Vec<(Pos, u32)>, bool)> = seeds
         .par_iter()
         .map(|s| uni::reach(&[*s], depth, max_states))
